@@ -93,9 +93,9 @@ def check_seq(case, ctx):
 
 # -------------------------------------------------------------- exhaustive
 GRID = (
-    [("DDM", [nt, ws, ds]) for nt in (1, 2, 3, 5) for ws, ds in ((2, 3), (1.5, 2.5), (1, 2))]
-    + [("EDDM", [nt, wt, dt]) for nt in (1, 2, 3, 5) for wt, dt in ((0.95, 0.9), (0.9, 0.7), (0.99, 0.5))]
-    + [("STEPD", [w, aw, ad]) for w in (1, 2, 3) for aw, ad in ((0.05, 0.003), (0.3, 0.1), (0.5, 0.2))]
+    [("DDM", [nt, ws, ds]) for nt in (1, 2, 3, 5) for ws, ds in ((2, 3), (1.5, 2.5), (1, 2), (2.5, 1.2))]
+    + [("EDDM", [nt, wt, dt]) for nt in (1, 2, 3, 5) for wt, dt in ((0.95, 0.9), (0.9, 0.7), (0.99, 0.5), (0.7, 0.9))]
+    + [("STEPD", [w, aw, ad]) for w in (1, 2, 3, 4) for aw, ad in ((0.05, 0.003), (0.3, 0.1), (0.5, 0.2), (0.1, 0.3))]
 )
 PREFIX_BITS = 3
 
@@ -166,12 +166,13 @@ def strat_random(tier):
     @st.composite
     def s(draw):
         det = draw(st.sampled_from(["DDM", "EDDM", "STEPD"]))
+        # threshold pairs are independent draws: "warning stricter than drift" orderings are legal (unvalidated) inputs too
         if det == "DDM":
-            params = [draw(st.integers(1, 30)), draw(st.sampled_from([1, 1.5, 2])), draw(st.sampled_from([2, 2.5, 3]))]
+            params = [draw(st.integers(1, 30)), draw(st.sampled_from([1, 1.5, 2, 2.5, 3.5])), draw(st.sampled_from([1.2, 2, 2.5, 3]))]
         elif det == "EDDM":
-            params = [draw(st.integers(1, 30)), draw(st.sampled_from([0.99, 0.95, 0.9])), draw(st.sampled_from([0.9, 0.8, 0.5]))]
+            params = [draw(st.integers(1, 30)), draw(st.sampled_from([0.99, 0.95, 0.9, 0.7])), draw(st.sampled_from([0.95, 0.9, 0.8, 0.5]))]
         else:
-            params = [draw(st.integers(1, 30)), draw(st.sampled_from([0.05, 0.2, 0.3])), draw(st.sampled_from([0.003, 0.05, 0.1]))]
+            params = [draw(st.integers(1, 30)), draw(st.sampled_from([0.05, 0.2, 0.3, 0.01])), draw(st.sampled_from([0.003, 0.05, 0.1, 0.25]))]
         seq = draw(vs.error_seq())
         return {"det": det, "params": params, "seq": seq}
 
@@ -182,8 +183,8 @@ PROPERTY = {
     "id": "C05",
     "level": "exploration",
     "rule": (
-        "exhaustive_prefix_tree: every binary outcome sequence of length 1..n (n=12 quick, 17 thorough) for 33 small "
-        "settings (DDM/EDDM n_threshold in {1,2,3,5} x 3 threshold pairs, STEPD window in {1,2,3} x 3 alpha pairs), explored as a "
+        "exhaustive_prefix_tree: every binary outcome sequence of length 1..n (n=12 quick, 17 thorough) for 48 small "
+        "settings (DDM/EDDM n_threshold in {1,2,3,5} x 4 threshold pairs, STEPD window in {1,2,3,4} x 4 alpha pairs, each incl. one pair with the warning level stricter than the drift level), explored as a "
         "prefix tree; one evaluation = one sequence, compared after its last sample (and, by construction, after every "
         "earlier one) with the executable specification; non-trivial = the sequence contains a warning and a drift. "
         "random_long: Hypothesis piecewise-stationary sequences (up to 600 samples, n_threshold/window up to 30); "
